@@ -20,6 +20,7 @@ import (
 	"io/fs"
 	"os"
 	"path/filepath"
+	"runtime"
 	"sort"
 	"strings"
 	"sync/atomic"
@@ -159,6 +160,7 @@ type c11Run struct {
 }
 
 func streamC11(h *H) {
+	runtime.GOMAXPROCS(4) // the machine is shared; the streams are not CPU hungry
 	c11InstallIndexFull()
 	root := MkTemp("c11-")
 	defer os.RemoveAll(root)
